@@ -451,7 +451,7 @@ func TestC19(t *testing.T) {
 	})
 
 	rigs := map[string]*c19Rig{}
-	rcheck(t, "random", V.N(200, 1500), func(rt *rapid.T) {
+	rcheck(t, "random", V.N(200, 4000), func(rt *rapid.T) {
 		proto := rapid.SampledFrom([]string{"udp", "udp", "tcp"}).Draw(rt, "proto")
 		nNames := rapid.IntRange(1, 2).Draw(rt, "host names")
 		key := fmt.Sprintf("%s-%d", proto, nNames)
